@@ -32,10 +32,13 @@ for p in props:
             "design_ref": "DESIGN.md section 4, " + pid,
         },
         "level_note": "NOT decided: " + mod.NOT_DECIDED + " Trusted: rustc type checker / MIR construction / const evaluation, the fact "
-                      "extractor in /verif/driver, the Python rule engine, the hand-confirmed role and allow-list tables. Assumes: "
+                      "extractor in /verif/driver, the Python rule engine including the program normalisation applied before the rules "
+                      "(release view without debug_assert code, inlining of helpers that are new w.r.t. the committed baseline, "
+                      "desugaring of std combinators over local closures; DESIGN.md 2.8), the hand-confirmed role and allow-list tables. Assumes: "
                       + "; ".join(mod.ASSUMPTIONS),
         "technique": getattr(mod, "TECHNIQUE", "custom MIR-level static analysis (rustc_private fact extractor + repository-specific rules: "
-                                                "effect pairing, who-may-write, error discipline, origin tracing, constant tables)"),
+                                                "effect pairing over success paths, who-may-write, error discipline, origin tracing, constant tables, format "
+                                                "fingerprint) evaluated on /repo's current tree after a behaviour-preserving normalisation of the MIR"),
     })
 commits = []
 m = {
